@@ -33,6 +33,8 @@ import (
 
 var attackKinds = []string{"equivocate", "forged-rc", "early-prop", "solo", "ignore-lock", "stale-rc"}
 
+// solo-netfail is not in the rotation: the model has no failing publish, so it is run without the model
+
 func ofType(ms []*specqbft.SignedMessage, t specqbft.MessageType) []*specqbft.SignedMessage {
 	var out []*specqbft.SignedMessage
 	for _, m := range ms {
@@ -303,6 +305,37 @@ func attackOne(out *hx.Out, seed, c uint64, only string) {
 		b := s.all(s.honest, []*specqbft.SignedMessage{s.sign(ld(1), msg, W)})
 		b = s.all(s.honest, append(ofType(b, specqbft.PrepareMsgType), byzAll(specqbft.PrepareMsgType, 2, rootW)...))
 		s.all(s.honest, append(ofType(b, specqbft.CommitMsgType), byzAll(specqbft.CommitMsgType, 2, rootW)...))
+	case "solo-netfail":
+		// one correct operator accepts the round-r proposal, its timeout finds the network down (the publish of
+		// the round change fails), then a quorum of commits for round r+1 over the OLD root arrives
+		me := spectypes.OperatorID(1 + r.Intn(size))
+		for id := 1; id <= size; id++ {
+			if spectypes.OperatorID(id) != me {
+				byzIDs = append(byzIDs, spectypes.OperatorID(id))
+			}
+		}
+		setup(byzIDs...)
+		nd := s.nodes[me]
+		nd.start(uint64(5 * r.Intn(4)))
+		if ld(1) == me {
+			return
+		}
+		nd.deliver(s.sign(ld(1), s.base(specqbft.ProposalMsgType, 1, rootW), W))
+		if r.Chance(1, 2) { // sometimes the operator is prepared as well
+			for i := 0; i < q && i < len(byzIDs); i++ {
+				nd.deliver(s.sign(byzIDs[i], s.base(specqbft.PrepareMsgType, 1, rootW), nil))
+			}
+		}
+		nd.forceNetFail = true
+		nd.timeout()
+		nd.forceNetFail = false
+		desc = fmt.Sprintf("me=%d leader1=%d", me, ld(1))
+		for i := 0; i < q && i < len(byzIDs); i++ {
+			nd.deliver(s.sign(byzIDs[i], s.base(specqbft.PrepareMsgType, 2, rootW), nil))
+		}
+		for i := 0; i < q && i < len(byzIDs); i++ {
+			nd.deliver(s.sign(byzIDs[len(byzIDs)-1-i], s.base(specqbft.CommitMsgType, 2, rootW), nil))
+		}
 	case "solo":
 		me := spectypes.OperatorID(1 + r.Intn(size))
 		for id := 1; id <= size; id++ {
@@ -353,7 +386,7 @@ func attackOne(out *hx.Out, seed, c uint64, only string) {
 		}
 	}
 	out.Count("attack-" + kind)
-	s.finish(out, fmt.Sprintf("attack seed=%d case=%d kind=%s only=%s size=%d byz=%v %s", seed, c, kind, orDash(only), size, keys(s.byz), desc), kind != "solo")
+	s.finish(out, fmt.Sprintf("attack seed=%d case=%d kind=%s only=%s size=%d byz=%v %s", seed, c, kind, orDash(only), size, keys(s.byz), desc), kind != "solo" && kind != "solo-netfail")
 }
 
 func orDash(s string) string {
